@@ -209,6 +209,83 @@ def run(chk, tier):
     chk.floor("R01.4", "guarded cycles (parser, not-run, neg-run, evaluator)", guarded, 4)
     chk.analysed["sccs"] = nscc
 
+    # ---- R01.6: a parser built while parsing inherits the depth counter
+    chk.rule("R01.6", "every CelCompiler value created inside a function of the guarded parser cycle receives the creator's nesting counter "
+                      "(field write `new.nesting = self.nesting`) before any method is called on it: nesting through format-string segments stays under the one limit")
+    cc_adt = F.adts.get("rscel::compiler::compiler::CelCompiler")
+    nest_idx = None
+    if cc_adt:
+        for n_, f_ in enumerate(cc_adt["variants"][0]["fields"]):
+            if f_["name"] == "nesting":
+                nest_idx = n_
+    if nest_idx is None:
+        chk.bad("R01.6", "anchor|CelCompiler.nesting", "the parser no longer has a `nesting` field: the depth guard's state is gone", "rscel/src/compiler/compiler.rs")
+    n_created = 0
+    parser_bodies = [b for b in F.bodies.values() if b.path.startswith("rscel::compiler::compiler::CelCompiler::<'l>::parse_") or "::CelCompiler::<'l>::parse_" in b.path]
+    for b in parser_bodies:
+        if nest_idx is None:
+            break
+        for blk, t in b.calls():
+            dest = t.get("dest") or t.get("destination") or {}
+            dl = dest.get("l") if isinstance(dest, dict) else None
+            if dl is None or dest.get("p"):
+                continue
+            ty = b.local_ty(dl) or ""
+            if not re.match(r"^rscel::compiler::compiler::CelCompiler<", ty):
+                continue
+            n_created += 1
+            key = "%s|%s" % (lib.short(b.path), lib.short(lib.callee_of(t)[1] or "?"))
+            # field writes new.nesting = <copy of (*self).nesting>
+            inherit_blocks = []
+            for i, st in b.stmts():
+                if st.get("k") != "assign":
+                    continue
+                pl = st["place"]
+                if pl.get("l") == dl and pl.get("p") == [{"f": nest_idx}]:
+                    src = st["rv"].get("op", {}) if st["rv"].get("k") == "use" else {}
+                    src = src.get("move") or src.get("copy") or {}
+                    # follow one temporary
+                    seen = 0
+                    while src and not src.get("p") and seen < 4:
+                        seen += 1
+                        defs = [s2 for _, s2 in b.stmts() if s2.get("k") == "assign" and s2["place"] == {"l": src.get("l")}]
+                        if len(defs) != 1 or defs[0]["rv"].get("k") != "use":
+                            break
+                        o2 = defs[0]["rv"]["op"]
+                        src = o2.get("move") or o2.get("copy") or {}
+                    if src.get("l") == 1 and src.get("p") == ["deref", {"f": nest_idx}]:
+                        inherit_blocks.append(i)
+            # every call that takes a reference to the new parser must be dominated by (or sit in the same block after) such a write
+            users = []
+            for i, st in b.stmts():
+                if st.get("k") == "assign" and st["rv"].get("k") == "ref" and st["rv"]["place"].get("l") == dl:
+                    users.append(i)
+            bad_users = [u for u in users if not any(g == u or b.dominates(g, u) for g in inherit_blocks)]
+            def from_self_nesting(op):
+                src = (op.get("move") or op.get("copy") or {}) if isinstance(op, dict) else {}
+                for _ in range(4):
+                    if src.get("l") == 1 and src.get("p") == ["deref", {"f": nest_idx}]:
+                        return True
+                    if not src or src.get("p"):
+                        return False
+                    defs = [s2 for _, s2 in b.stmts() if s2.get("k") == "assign" and s2["place"] == {"l": src.get("l")}]
+                    if len(defs) != 1 or defs[0]["rv"].get("k") != "use":
+                        return False
+                    o2 = defs[0]["rv"]["op"]
+                    src = o2.get("move") or o2.get("copy") or {}
+                return False
+            if any(from_self_nesting(a) for a in t.get("args", [])):
+                chk.ok("R01.6", key, "the creator's counter is passed to the constructor")
+            elif not users:
+                chk.ok("R01.6", key, "created but never used")
+            elif bad_users or not inherit_blocks:
+                chk.bad("R01.6", key, "%s creates a new parser (its nesting counter starts at 0) and uses it without first copying its own counter into it: "
+                                      "each level of that construct gets a fresh nesting budget, so recursion through it is unbounded" % lib.short(b.path),
+                        "%s:%d" % (t["file"], t["line"]))
+            else:
+                chk.ok("R01.6", key, "nesting inherited before first use")
+    chk.floor("R01.6", "parsers created inside parse functions (format-string segments)", n_created, 1)
+
     # ---- R01.5
     cj = F.body("rscel::interp::interp::Interpreter::<'a>::checked_jump_target")
     ops = set()
